@@ -74,7 +74,7 @@ pub fn rl_runs(len: usize, runs: &Runs) -> RLVector {
 
 pub const PLAIN_ROUTES: [&str; 6] = ["raw", "push", "iter", "from_sparse", "from_rl", "copy_rl"];
 pub const SPARSE_ROUTES: [&str; 5] = ["builder", "try_set", "extend", "from_plain", "from_rl"];
-pub const RL_ROUTES: [&str; 6] = ["runs", "bits", "split", "set_len_steps", "from_plain", "from_sparse"];
+pub const RL_ROUTES: [&str; 7] = ["runs", "bits", "split", "set_len_steps", "zero_runs", "from_plain", "from_sparse"];
 
 /// Builds a bitvector of the given type by the given public route.
 pub fn build(kind: &str, route: &str, len: usize, runs: &Runs) -> AnyBv {
@@ -144,6 +144,19 @@ pub fn build(kind: &str, route: &str, len: usize, runs: &Runs) -> AnyBv {
                         } else {
                             b.try_set(*s, *l).unwrap();
                         }
+                    }
+                    b.set_len(len);
+                    RLVector::from(b)
+                },
+                "zero_runs" => {
+                    // Zero-length runs (documented no-ops) are issued between the two halves of every run.
+                    let mut b = RLBuilder::new();
+                    for (s, l) in runs.iter() {
+                        let first = (*l + 1) / 2;
+                        b.try_set(*s, first).unwrap();
+                        b.try_set(*s + *l + 3, 0).unwrap();
+                        b.try_set(*s + first, 0).unwrap();
+                        if *l > first { b.try_set(*s + first, *l - first).unwrap(); }
                     }
                     b.set_len(len);
                     RLVector::from(b)
@@ -714,4 +727,57 @@ pub fn record_rl(seed: u64, thorough: bool, path: &str) -> Value {
     let mut rng = Rng::new(seed);
     let contents = rl_regimes(&mut rng, thorough);
     record_contents("rl", contents, seed, thorough, path)
+}
+
+//-----------------------------------------------------------------------------
+// Layer B drift check: the serialized support structures of plain bitvectors.
+
+fn int_items(l: &crate::layout::IntL) -> Vec<u64> { l.items() }
+
+pub fn record_layout(seed: u64, thorough: bool, path: &str) -> Value {
+    let mut rng = Rng::new(seed);
+    let mut out = TraceOut::new();
+    let mut contents: Vec<(usize, Runs, bool, bool)> = Vec::new();
+    // small and medium vectors: all three structures
+    for len in [0usize, 1, 63, 64, 65, 511, 512, 513, 4095, 4096, 4097] {
+        contents.push((len, dense_uniform(&mut rng, len, 500), true, true));
+    }
+    contents.push((9000, dense_uniform(&mut rng, 9000, 950), true, true));
+    contents.push((9000, clustered(&mut rng, 9000, 100, 40), true, true));
+    // long superblocks need len >= 2^17: few ones (select) / few zeros (select_zero) only
+    let len = (1 << 17) + 77;
+    let mut runs = vec![(100, 4500)];
+    runs.extend(random_positions(&mut rng, len, 30).into_iter().filter(|r| r.0 > 6000));
+    let r3 = normalize(len, runs);
+    contents.push((len, r3.clone(), true, false));
+    contents.push((len, complement(len, &r3), false, true));
+    if thorough {
+        let len = (1 << 18) + 5;
+        let sp = random_positions(&mut rng, len, 40);
+        contents.push((len, sp.clone(), true, false));
+        contents.push((len, complement(len, &sp), false, true));
+    }
+    for (len, runs, sel, sel0) in contents.iter() {
+        let mut b = plain_raw(*len, runs);
+        b.enable_rank();
+        if *sel { b.enable_select(); }
+        if *sel0 { b.enable_select_zero(); }
+        let elems = crate::layout::to_elements(&crate::layout::to_bytes(&b));
+        let l = crate::layout::Cursor::new(&elems).bit();
+        let rank_elems = l.opts[0].clone().unwrap();
+        let n = rank_elems[0] as usize;
+        let rank: Vec<Value> = (0..n).map(|i| { let s = rank_elems[1 + 2 * i]; let r = rank_elems[2 + 2 * i]; json!([s, (0..7).map(|k| (r >> (9 * k)) & 0x1FF).collect::<Vec<u64>>()]) }).collect();
+        let mut ev = json!({"e": "layout", "len": len, "runs": runs_json(runs), "rank": rank, "has_sel": sel, "has_sel0": sel0});
+        for (which, pre, on) in [(1usize, "sel", *sel), (2usize, "sel0", *sel0)] {
+            if !on { for suf in ["samples", "long", "short"] { ev[format!("{}_{}", pre, suf)] = json!([]); } continue; }
+            let (s, lo, sh) = crate::layout::select_layout(l.opts[which].as_ref().unwrap());
+            let si = int_items(&s);
+            ev[format!("{}_samples", pre)] = json!(si.chunks(2).map(|c| json!([c[0], c[1]])).collect::<Vec<Value>>());
+            ev[format!("{}_long", pre)] = json!(int_items(&lo));
+            ev[format!("{}_short", pre)] = json!(int_items(&sh));
+        }
+        out.push(ev);
+    }
+    out.write(path);
+    json!({"objects": contents.len(), "queries": contents.len(), "events": out.lines.len(), "sample": {"len": contents[3].0}})
 }
